@@ -11,6 +11,7 @@ import (
 	"strings"
 
 	"google.golang.org/protobuf/reflect/protoreflect"
+	"google.golang.org/protobuf/verifmc/univ"
 )
 
 // Elem is a scalar value or a nested model.
@@ -91,7 +92,7 @@ func (m *Msg) clearOneofSiblings(fd protoreflect.FieldDescriptor) {
 
 // Set stores a singular scalar value.
 func (m *Msg) Set(fd protoreflect.FieldDescriptor, v protoreflect.Value) {
-	if !fd.HasPresence() && isZero(fd, v) {
+	if !univ.WantPresence(fd) && isZero(fd, v) {
 		delete(m.fields, key(fd))
 		return
 	}
